@@ -323,6 +323,11 @@ def run(ctx):
     ctx.extra["types_scanned"] = nt
     ctx.ob("S-FREEZE", "no interior-mutability type anywhere in the crate", not bad, "%s" % bad[:5])
 
+    # the enum parser's productions: which keyword is tested / skipped / handed to which sub-parser, which slot is filled (P-SKELETON), in terms of
+    # cursor primitives with exactly their reviewed meaning (P-PRIM)
+    import pskel as _pskel
+    _pskel.rule_P_PRIM(ctx)
+    _pskel.rule_P_SKELETON(ctx)
     ctx.undecided = ["nothing of substance: determinism of a state-free, deterministic function is the absence of carried state; "
                      "std/dep callees (HashSet iteration order aside, see C06/C07) are assumed deterministic"]
     ctx.assumptions = ["MIR construction and call resolution are correct", "external callees do not keep state between calls"]
